@@ -1076,6 +1076,146 @@ def malformed_value_cases(ctx) -> list[dict]:
     return out
 
 
+# --------------------------------------------------------------------------------------------
+# IDL inputs without any type definition (the property quantifies over ALL inputs: also those that declare nothing)
+# --------------------------------------------------------------------------------------------
+# A valid IDL need not declare a type: an empty file, blank lines, empty (nested, commented) namespaces, a file that only imports such
+# files or only names an `@extern` file. What `generate` does for a target that does not depend on the declarations still has to happen:
+# the target names are looked up and their configuration is required (141 / 120), `--clean` purges the output directories, the support
+# library and the other type-independent files of the target (cleaner, loader) are written and listed in the report. The class is known
+# by construction: status 0 when every requested target is configured, else 141; and the outputs are those of the *twin* invocation —
+# the same command line on the same workspace with ONE declaration (`zz_probe`) in the root file — minus the files of that declaration.
+
+TYPELESS_PROBE = "zz_probe"
+TYPELESS_SHAPES = {
+    "empty": {"t.djinni": ""},
+    "blank": {"t.djinni": "\n  \n\t\n\r\n"},
+    "namespace": {"t.djinni": "namespace foo {\n}\n"},
+    "namespaces": {"t.djinni": "# nothing in here yet\nnamespace a {\n  namespace b.c {\n  }\n}\nnamespace d { }\n"},
+    "imports": {"t.djinni": '@import "e1.djinni"\n@import "sub/e2.djinni"\n', "e1.djinni": "", "sub/e2.djinni": "namespace q { }\n"},
+    "import-chain": {"t.djinni": '@import "e1.djinni"\n', "e1.djinni": '@import "sub/e2.djinni"\n', "sub/e2.djinni": "\n"},
+    "extern": {"t.djinni": '@extern "x.yaml"\n', "x.yaml": ""},
+    "import+namespace": {"t.djinni": '@import "e1.djinni"\nnamespace n {\n}\n', "e1.djinni": "namespace n { }\n"},
+}
+TYPELESS_CONFIG = "tl_support.yaml"
+# (configuration file | None = pydjinni.yaml, generator sections it holds, requested targets, --clean)
+TYPELESS_COMBOS = [
+    (TYPELESS_CONFIG, ["cpp", "java"], True), (None, ["cpp", "objc"], False), (TYPELESS_CONFIG, ["objc", "cpp"], True),
+    (TYPELESS_CONFIG, ["cpp"], False), (None, ["java", "yaml"], True), (TYPELESS_CONFIG, ["yaml", "java"], False),
+    (None, ["cpp"], True), (TYPELESS_CONFIG, ["java", "cppcli"], False), ("nocpp.yaml", ["java"], True), (None, ["objc"], True),
+    ("support.yml", ["cpp", "java"], True), ("support.yml", ["cpp"], True),
+]
+TYPELESS_SECTIONS = {None: ["cpp", "java", "jni", "yaml"], TYPELESS_CONFIG: ["cpp", "java", "jni", "yaml"], "nocpp.yaml": ["java", "jni"], "support.yml": ["cpp"]}
+
+
+def typeless_idl_cases(ctx) -> list[dict]:
+    """command lines for IDL inputs without a type definition (every shape x a rotation of configuration x targets x --clean), each
+    with its twin (the same command line, one declaration in the root file); `case['typeless']` = the class known by construction"""
+    lt = c17.live_targets_cached()
+    extra = {TYPELESS_CONFIG: cfgsys.to_yaml(gen_cfg(["cpp", "java", "jni", "yaml"], support=True))}
+    shapes = list(TYPELESS_SHAPES.items())
+    n_combos = ctx.n(6, len(TYPELESS_COMBOS))
+    per_shape = ctx.n(2, len(TYPELESS_COMBOS))
+    out, twins = [], {}
+    for si, (shape, files) in enumerate(shapes):
+        for j in range(per_shape):
+            ci = (si * per_shape + j + ctx.seed) % n_combos
+            cfg, targets, clean = TYPELESS_COMBOS[ci]
+            secs = TYPELESS_SECTIONS[cfg]
+            ready = all(t in lt and all(g in secs for g in lt[t]) for t in targets)
+            if ci not in twins:
+                tw = make_case("t.djinni", cfg, OPTION_SETS[0], targets, clean)
+                tw["files"] = {"t.djinni": f"{TYPELESS_PROBE} = enum {{ a; b; }}\n", **extra}
+                tw["label"] = f"typeless/twin/{ci}"
+                twins[ci] = tw
+                out.append(tw)
+            c = make_case("t.djinni", cfg, OPTION_SETS[0], targets, clean)
+            c["files"] = {**files, **extra}
+            c["label"] = f"typeless/{shape}/{ci}"
+            c["typeless"] = {"shape": shape, "twin": twins[ci]["label"], "twin_case": {k: v for k, v in twins[ci].items() if k != "typeless"},
+                             "expect_rc": 0 if ready else 141}
+            out.append(c)
+    return out
+
+
+def typeless_differences(case: dict, obs: dict, twin: dict) -> list:
+    """(key, what, details) for every clause of the specification of a type-less input that does not hold"""
+    tl = case["typeless"]
+    want = tl["expect_rc"]
+    out = []
+    if obs["traceback"] or obs["rc"] in (1, None):
+        return out   # reported by the general clauses
+    if obs["rc"] != want:
+        out.append(("cli:typeless-idl-status", f"`{' '.join(case['args'])}` on an IDL without type definitions ({tl['shape']}) ended with status {obs['rc']}; "
+                    f"documented: {want} ({'every requested target is configured' if want == 0 else 'a requested target is not configured'})", {}))
+    first = next((raised_of(x) for x in obs["api"]["stages"] if x["kind"] != "ok"), None)
+    api_rc = 0 if first is None else first.get("code", (first.get("codes") or [1])[0] if first["kind"] == "applist" else 1)
+    if api_rc != want:
+        out.append(("api:typeless-idl-status", f"the API sequence on an IDL without type definitions ({tl['shape']}) ended with {first or 'no exception'}; documented: {want}", {}))
+    if twin["rc"] != want or twin["traceback"]:
+        return out   # the twin itself is off its class: reported by the general clauses
+    probe = TYPELESS_PROBE.replace("_", "")
+
+    def independent(tree):
+        return {k: v for k, v in tree.items() if probe not in k.lower().replace("_", "") and not k.endswith("report.json")}
+    for side, a, b in (("cli", obs["tree"], twin["tree"]), ("api", obs["api"].get("tree") or {}, twin["api"].get("tree") or {})):
+        a, b = independent(a), independent(b)
+        if a != b:
+            missing = sorted(k for k in b if k not in a)
+            extra = sorted(k for k in a if k not in b)
+            out.append((f"{side}:typeless-idl-outputs", f"the outputs for an IDL without type definitions ({tl['shape']}) are not those of the same invocation with one "
+                        f"declaration minus the files of that declaration: {len(missing)} missing (support library, cleaner, loader …), {len(extra)} left over / extra, "
+                        f"{sum(1 for k in a if k in b and a[k] != b[k])} different", {"missing": missing[:12], "extra": extra[:12]}))
+            break
+
+    def listed(rep):
+        acc = set()
+
+        def walk(x, in_list=False):
+            if isinstance(x, str):
+                if in_list:   # the lists of generated files (the scalar fields name the output directories of the sections in use)
+                    acc.add(x)
+            elif isinstance(x, dict):
+                for v in x.values():
+                    walk(v)
+            elif isinstance(x, list):
+                for v in x:
+                    walk(v, True)
+        walk((rep or {}).get("generated") or {})
+        return {x for x in acc if probe not in x.lower().replace("_", "")}
+    if want == 0 and (obs["report"] is None) != (twin["report"] is None):
+        out.append(("cli:typeless-idl-report", f"the processed-files report is {'not ' if obs['report'] is None else ''}written for an IDL without type definitions "
+                    f"({tl['shape']}), but {'not ' if twin['report'] is None else ''}for the same invocation with one declaration", {}))
+    elif want == 0 and listed(obs["report"]) != listed(twin["report"]):
+        out.append(("cli:typeless-idl-report", f"the report for an IDL without type definitions ({tl['shape']}) does not list the type-independent generated files "
+                    f"the same invocation with one declaration lists", {"missing": sorted(listed(twin["report"]) - listed(obs["report"]))[:12],
+                                                                         "extra": sorted(listed(obs["report"]) - listed(twin["report"]))[:12]}))
+    return out
+
+
+def evaluate_typeless(ctx, cases, results):
+    by_label = {c.get("label"): o for c, o in zip(cases, results)}
+    for c, o in zip(cases, results):
+        tl = c.get("typeless")
+        if not tl or tl["twin"] not in by_label:
+            continue
+        ctx.stat(f"typeless_{tl['shape']}_rc_{o['rc']}")
+        for key, what, extra in typeless_differences(c, o, by_label[tl["twin"]]):
+            ctx.report(key, what, {"args": c["args"], "case": {k: v for k, v in c.items() if k != "child_env"}, "impl": brief(o), **extra})
+
+
+def replay_typeless(ctx, case) -> bool:
+    twin = dict(case["typeless"]["twin_case"])
+    twin["child_env"] = case["child_env"]
+    cfgsys.register("cli", run_case)
+    obs, tw = cfgsys.run_pool(ctx.tmp, [("cli", case), ("cli", twin)], workers=2)
+    print(json.dumps(brief(obs), indent=1)[:3000])
+    diffs = typeless_differences(case, obs, tw)
+    for key, what, extra in diffs:
+        ctx.report(key, what, {"args": case["args"], "case": {k: v for k, v in case.items() if k != "child_env"}, "impl": brief(obs), **extra})
+    return not diffs
+
+
 def config_file_of(case: dict) -> dict | None:
     """the description of the configuration file an invocation names (None: no file)"""
     cfg = case["sem"]["config"]
@@ -1610,6 +1750,7 @@ def run(ctx):
     cases += option_value_cases(ctx)
     cases += malformed_value_cases(ctx)
     cases += keyword_order_cases(ctx)
+    cases += typeless_idl_cases(ctx)
     child_env = ctx.child_env()
     for c in cases:
         c["child_env"] = child_env
@@ -1638,6 +1779,7 @@ def run(ctx):
     for c, o, m, sq, s in zip(cases, results, answers, spec_reqs, specs):
         evaluate(ctx, c, o, m, sq, s, breaks)
     evaluate_keyword_orders(ctx, cases, results)
+    evaluate_typeless(ctx, cases, results)
     ctx.stats["correspondence_breaks"] = len(breaks)
     if os.environ.get("VERIF_DEBUG"):
         for b in breaks:
@@ -1951,4 +2093,6 @@ def replay(ctx, body):
     print(json.dumps(brief(obs), indent=1)[:3000])
     before = len(ctx.violations) + sum(ctx.known_hits.values())
     evaluate(ctx, case, obs, m, sq, s, [])
+    if case.get("typeless") and not replay_typeless(ctx, case):
+        return False
     return len(ctx.violations) + sum(ctx.known_hits.values()) == before
